@@ -3,6 +3,7 @@
 package load
 
 import (
+	"time"
 	"fmt"
 	"go/ast"
 	"go/token"
@@ -45,6 +46,28 @@ func env() []string {
 // Load type-checks every package of the module in dir. deep also loads the
 // syntax of all dependencies (needed for SSA).
 func Load(dir string, deep bool) (*Program, error) {
+	// go list hands out files of the build cache (cgo-processed sources of the standard library); a concurrent
+	// `go clean -cache` or cache trim by another process makes them vanish under the loader. That is not a fact
+	// about the repository: load again (go list refills the cache).
+	var p *Program
+	var err error
+	for attempt := 0; attempt < 4; attempt++ {
+		p, err = loadOnce(dir, deep)
+		if err == nil {
+			return p, nil
+		}
+		msg := err.Error()
+		transient := strings.Contains(msg, "cache entry not found") || strings.Contains(msg, "from cache") ||
+			strings.Contains(msg, "ill-typed: internal/") || strings.Contains(msg, "ill-typed: runtime") || strings.Contains(msg, "ill-typed: syscall")
+		if !transient {
+			return nil, err
+		}
+		time.Sleep(time.Duration(2+3*attempt) * time.Second)
+	}
+	return nil, err
+}
+
+func loadOnce(dir string, deep bool) (*Program, error) {
 	mode := packages.NeedName | packages.NeedFiles | packages.NeedCompiledGoFiles | packages.NeedImports |
 		packages.NeedTypes | packages.NeedSyntax | packages.NeedTypesInfo | packages.NeedTypesSizes | packages.NeedModule
 	if deep {
